@@ -361,6 +361,60 @@ def r_const(prog, R):
             r.viol(k, eq.name, eq.loc(eq.ln), "a connection's local address can have family %d (set at %s) but ares_addr_equal can never report two such addresses equal: the client cookie is regenerated, and the server cookie dropped, on every transmission" % (fam, where))
 
 
+def r_gateorder(prog, R):
+    import C05
+    r = R.rule("R-C17-GATE", "nothing in process_answer acts on a response (deliver, cache, count, downgrade EDNS, requeue) before the cookie check passed", floor=7, analysis="A-DOM (edge cut) on the cookie gate")
+    f = prog.func("process_answer")
+    res = C05.gates_of_process_answer(prog, r, f)
+    if res is None:
+        return
+    gates, _ = res
+    cg = [g for g in gates if g[0] == "cookie-valid"]
+    if not r.require(len(cg) == 1, "cookie gate not found in process_answer"):
+        return
+    name, gb, ps, fl = cg[0]
+    acts = [(b, i, c) for b, i, c in f.calls() if c.get("callee") in C05.EFFECTS + ("rewrite_without_edns", "issue_might_be_edns")]
+    r.require(len(acts) >= 8, "process_answer: fewer response-driven actions than confirmed by hand (%d)" % len(acts))
+    seen = {}
+    for b, i, c in acts:
+        seen[c["callee"]] = seen.get(c["callee"], 0) + 1
+        key = "action=%s#%d behind cookie check" % (c["callee"], seen[c["callee"]])
+        t = element_reachable_avoiding(f, b, i, [(gb.id, ps)])
+        if t is not None:
+            r.viol(key, f.name, f.loc(c["ln"]), "%s is reachable before ares_cookie_validate() has passed: a reply without a valid cookie from a cookie-proven server is acted on (e.g. the query is re-sent without EDNS/cookie and anything is accepted afterwards)" % c["callee"], trail=trail_lines(f, t))
+        else:
+            r.ok(key, f.loc(c["ln"]))
+
+
+def r_disarm(prog, R):
+    r = R.rule("R-C17-DISARM", "every valid server cookie disarms the regression timer (unsupported_ts is cleared whenever a server cookie is accepted)", floor=2, analysis="must-pass-through + exact guard")
+    f = prog.func("ares_cookie_validate")
+    stores = [(b, i, el) for b, i, el in f.elements() if el["k"] == "asg" and is_field(el["e"]["l"], "state", "ares_cookie_t") and name_of_const(el["e"]["r"]) == "ARES_COOKIE_SUPPORTED"]
+    clears = [(b, i, c) for b, i, c in f.calls_to("memset") if any(n.get("k") == "mem" and n["f"] == "unsupported_ts" for n in walk(call_arg(c, 0))) and const_val(call_arg(c, 1)) == 0]
+    if not r.require(stores and clears, "ares_cookie_validate: SUPPORTED store / unsupported_ts clear not found"):
+        return
+    mf = MustFacts(f, track_calls=False)
+    cb, ci, cc = clears[0]
+    # the clear is guarded by exactly 'response carries a server cookie' (resp_cookie && len > 8) plus the spoof checks before it
+    extra = []
+    for c3, p3 in mf.cond_facts_at(cb, ci):
+        t = render(c3)
+        if "resp_cookie" in t or "req_cookie" in t or "memcmp" in t:
+            continue
+        extra.append(("" if p3 else "!") + t)
+    if extra:
+        r.viol("timer cleared whenever a server cookie arrives", f.name, f.loc(cc["ln"]), "unsupported_ts is cleared only when %s: after one dropped cookie-less reply the regression timer stays armed although valid cookies keep arriving, and 120 s later the whole cookie state is thrown away" % extra)
+    else:
+        r.ok("timer cleared whenever a server cookie arrives", f.loc(cc["ln"]))
+    # and SUPPORTED is (re)asserted under the same guard
+    sb, si, sel = stores[0]
+    extra = [("" if p3 else "!") + render(c3) for c3, p3 in mf.cond_facts_at(sb, si) if not any(x in render(c3) for x in ("resp_cookie", "req_cookie", "memcmp"))]
+    if extra:
+        r.viol("SUPPORTED asserted whenever a server cookie arrives", f.name, f.loc(sel), "state = SUPPORTED is conditional on %s" % extra)
+    else:
+        r.ok("SUPPORTED asserted whenever a server cookie arrives", f.loc(sel))
+
+
 def run(prog, R, tier):
     R.assume("timeval_expired/timeval_is_set compute what their names say (numeric behaviour not decided)")
     r_fsm(prog, R)
@@ -369,4 +423,6 @@ def run(prog, R, tier):
     r_bound(prog, R)
     r_order(prog, R)
     r_const(prog, R)
+    r_gateorder(prog, R)
+    r_disarm(prog, R)
     C06.r_resend(prog, R, rid="R-C17-RESEND")
